@@ -7,6 +7,7 @@ COQ = os.path.join(ROOT, "coq")
 DRIVER = os.path.join(CACHE, "driver", "model_driver")
 HARNESS = os.path.join(CACHE, "target", "debug", "cgt-verif-harness")
 CLI = os.path.join(CACHE, "target", "debug", "cgt-tool")
+PDF_HARNESS = os.path.join(CACHE, "target", "debug", "cgt-verif-harness-pdf")
 ENV = dict(os.environ, RUST_BACKTRACE="0", CARGO_NET_OFFLINE="true", CARGO_TARGET_DIR=os.path.join(CACHE, "target"))
 
 class BuildError(Exception):
@@ -65,11 +66,17 @@ def build_harness():
         rc, out = sh("cargo build --offline 2>&1", cwd=h, timeout=1700)
     if rc != 0: raise BuildError("cargo-harness", out)
 
+def build_pdf_harness():
+    h = os.path.join(ROOT, "harness_pdf")
+    shutil.copy("/repo/Cargo.lock", os.path.join(h, "Cargo.lock"))
+    rc, out = sh("cargo build --offline 2>&1", cwd=h, timeout=1700)
+    if rc != 0: raise BuildError("cargo-harness-pdf", out)
+
 def build_cli():
     rc, out = sh("cargo build --offline -p cgt-cli 2>&1", cwd="/repo", timeout=1700)
     if rc != 0: raise BuildError("cargo-cli", out)
 
-def build_all(coq_targets, need_cli=False):
+def build_all(coq_targets, need_cli=False, need_pdf=False):
     t0 = time.time()
     with Lock():
         params = gen_params()
@@ -77,4 +84,5 @@ def build_all(coq_targets, need_cli=False):
         log = coq_make(coq_targets) if coq_targets else ""
         build_harness()
         if need_cli: build_cli()
+        if need_pdf: build_pdf_harness()
     return {"params": params, "coq_log": log, "build_s": round(time.time() - t0, 1)}
